@@ -417,8 +417,10 @@ def compare_envs(res, prog, tree, env_specs, exact_mode=False):
             break
         if not agree(ref[1], v) and (
                 (isinstance(v, float) and _ill_conditioned(prog, env, v))
-                or (isinstance(v, (bool, int)) and _has_float_literal(prog)
-                    and _exact_shadow_differs(prog, env, v))):
+                or (isinstance(v, (bool, int)) and _has_float_literal(prog))):
+            # (a truth value / integer computed through inexact floats - a comparison, a
+            # truth test, a floor - is decided by rounding noise once the operands cancel;
+            # an irrational power makes even the rational shadow run inexact)
             # the plain float computation is itself far from the exact value of the
             # program (cancellation followed by a division ...): nothing to compare with
             res.label("ill-conditioned-float-environment")
